@@ -493,7 +493,8 @@ def run_case(ctx, case):
     ctx.count("cone_" + cname)
     # ---- fast routine
     try:
-        idx = [int(i) for i in order.get_pareto_set(X.copy())]
+        held = order.get_pareto_set(X.copy())      # kept by the caller and read again after later calls (below)
+        idx = [int(i) for i in held]
     except Exception as e:  # the property says every finite set has a Pareto set
         ctx.violation("fast-crash:" + core.exc_key(e), f"get_pareto_set raised {type(e).__name__}", case)
         return
@@ -524,6 +525,17 @@ def run_case(ctx, case):
         # pointed cone: naive keeps all copies of exactly the values fast keeps
         ctx.violation("naive-vs-fast", "naive and fast routines keep different value sets", case,
                       detail={"fast": idx, "naive": nidx})
+    # ---- an answer the caller still holds must not change when the same order is asked something else afterwards
+    try:
+        order.get_pareto_set(X[::-1].copy())
+        order.get_pareto_set(X[:1].copy())
+        late = [int(i) for i in held]
+    except Exception:
+        late = idx
+    if late != idx:
+        ctx.violation("result-changes-after-later-call", "the index array returned by get_pareto_set, kept by the caller, "
+                      "no longer holds the Pareto indices it held when returned (later calls on the same order "
+                      "overwrote it)", case, detail={"returned": idx, "read_late": late})
     n = len(case["X"])
     nontrivial = len(idx) < n and (len(idx) >= 2 or len(nidx) > len(idx))
     ctx.count("kept_%s" % ("all" if len(idx) == n else "some"))
